@@ -210,7 +210,15 @@ fn replay_specific(prop: &str, kind: &str, case: &J, rule: &tau_engine::Rule, ru
             let still = match eng::load(&ser) {
                 Ok(Load::Ok(b)) => {
                     println!("--- reloaded: {}", eng::printed(&b));
-                    eng::printed(&b) != eng::printed(rule)
+                    // second trip, as the monitor does
+                    let again = eng::optimise(&b, Sw(if sw == 15 { 2 } else { 15 })).unwrap_or_else(|_| (*b).clone());
+                    let second = serde_yaml::to_string(&again).ok().map(|t| eng::load(&t));
+                    let second_ok = match second {
+                        Some(Ok(Load::Ok(b2))) => eng::printed(&b2) == eng::printed(rule),
+                        _ => false,
+                    };
+                    println!("second optimise/serialise/reload round gives the original rule: {}", second_ok);
+                    eng::printed(&b) != eng::printed(rule) || !second_ok
                 }
                 other => {
                     println!("reload failed: {}", matches!(other, Err(_)));
